@@ -533,12 +533,12 @@ func stressBroker(in stressInput, fail func(string, ...interface{})) {
 				conn := newScriptConn()
 				go mgr.Setup(ctx, transport.Metadata{Name: "script", Channel: conn})
 				conn.Feed(encConnect(fmt.Sprintf("c%d", c), "", "", 60, &jPub{T: "will", P: "w"}, true))
-				if !conn.WaitOutCount(1, 5*time.Second) {
+				if !conn.WaitOutCount(1, 30*time.Second) {
 					fail("broker: no CONNACK for client %d", c)
 					return
 				}
 				conn.Feed(encSubscribe(1, []string{fmt.Sprintf("t/%d/#", c%4), "all/+"}, []int{1, 2}))
-				conn.WaitIdle(5 * time.Second)
+				conn.WaitIdle(30 * time.Second)
 				for i := 0; i < 20; i++ {
 					conn.Feed(encPublish(fmt.Sprintf("t/%d/x", i%4), "p", i%3, i%7 == 0, false, 100+i))
 					if i%3 == 2 {
@@ -551,13 +551,13 @@ func stressBroker(in stressInput, fail func(string, ...interface{})) {
 						}
 					}
 				}
-				conn.WaitIdle(5 * time.Second)
+				conn.WaitIdle(30 * time.Second)
 				if round%2 == 0 {
 					conn.Feed([]byte{0xe0, 0})
 				} else {
 					conn.ClientEOF()
 				}
-				if !conn.WaitClosed(5 * time.Second) {
+				if !conn.WaitClosed(30 * time.Second) {
 					fail("broker: connection of client %d not closed after its session ended", c)
 				}
 			}
